@@ -70,10 +70,11 @@ def _mk_gen_id(kind):
         before = t.v
         a = vm.exec_fn(fn, [Ref(t)], {})
         b = vm.exec_fn(fn, [Ref(t)], {}) if vm.branch(tid.e != 2 ** 64 - 2) else None
-        vm.check(a.e == tid.e + 1, "the first id is the counter + 1")
+        cnt = fld(P, t.v, ty, 'track_id')
+        vm.check(z3.UGT(a.e, tid.e), "a new id is greater than every id issued before (all of which are <= the counter)")
         if b is not None:
-            vm.check(b.e == tid.e + 2, "ids strictly increase")
-            vm.check(z3.ULT(tid.e, a.e), "a new id is greater than every id issued before")
+            vm.check(z3.UGT(b.e, a.e), "ids strictly increase")
+            vm.check(z3.UGE(cnt.e, b.e), "the counter covers every id issued")
         ti = names.index('track_id')
         vm.check(BOOL(all(x is y for i, (x, y) in enumerate(zip(before.fields, t.v.fields)) if i != ti)), "generating an id changes only the counter")
     return q
